@@ -4,13 +4,13 @@ import time
 from concurrent.futures import ThreadPoolExecutor
 
 from common import (NCPU, REPLAYS, HarnessError, bisect_crash, cargo_build, extract_block, log, miri_cmd, parse_stats,
-                    repo_state, run_capture, run_engine_miri, run_engine_native, save_replay, write_evidence, ENV)
+                    repo_state, run_allocfault, run_capture, run_engine_miri, run_engine_native, save_replay, write_evidence, ENV)
 
 PROP = "C12"
 
 BUDGET = {
-    "quick": {"enum": "quick", "sampled": 2_000_000, "miri_shapes": 128, "miri_procs": 8, "w2": 500_000, "w2_miri": 32, "cpp": 40_000},
-    "thorough": {"enum": "thorough", "sampled": 300_000_000, "miri_shapes": 3000, "miri_procs": 16, "w2": 50_000_000, "w2_miri": 600, "cpp": 4_000_000},
+    "quick": {"enum": "quick", "sampled": 2_000_000, "miri_shapes": 128, "miri_procs": 8, "w2": 500_000, "w2_miri": 32, "cpp": 40_000, "allocfault": 600},
+    "thorough": {"enum": "thorough", "sampled": 300_000_000, "miri_shapes": 3000, "miri_procs": 16, "w2": 50_000_000, "w2_miri": 600, "cpp": 4_000_000, "allocfault": 30000},
 }
 
 
@@ -134,6 +134,15 @@ def check(tier, seed):
             violations += viols
         log("[C12] macro write methods: %d violations (%.1fs)" % (len(viols), time.time() - t1))
 
+    # ---- phase 4b: failing allocations inside the Rust-owned writer: if the process survives, the sticky-flag rules apply
+    allocfault = None
+    if not violations:
+        t1 = time.time()
+        allocfault, viols = run_allocfault(binary, PROP, seed, b["allocfault"])
+        violations += viols
+        totals["evaluations"] += allocfault["processes"]
+        log("[C12] failing allocations: %s, %d violations (%.1fs)" % (allocfault, len(viols), time.time() - t1))
+
     # ---- phase 5: the C++ owner (WriteFromString/_grow/_flush of the generated diplomat_runtime.hpp) and the
     # std::string returned by generated wrappers, under ASan, c++17 and c++20 (I9)
     cpp_cov = None
@@ -166,6 +175,7 @@ def check(tier, seed):
         "phases": phases,
         "fault_kinds_fired": {**fault_counts, **{k: v for k, v in counters.items() if k.startswith("l2_fault_") or k.startswith("cpp_fault_")}},
         "cpp_layer": cpp_cov,
+        "failing_allocation_fault": allocfault,
         "reach_probes": probes,
         "other_counters": {k: v for k, v in counters.items() if not k.startswith("fault_") and not k.startswith("probe_")},
         "logical_steps_simulated": counters.get("ops", 0),
@@ -182,7 +192,7 @@ def check(tier, seed):
     assumptions = [
         "the simulated owner is honest: grow() either returns false and changes nothing or provides at least the requested capacity and preserves [0,len)",
         "the accessors are also applied to caller-supplied writers (they only read fields) because a Rust-owned writer cannot fail to grow without aborting the process",
-        "allocation failure inside the Rust-owned writer aborts the process and is not simulated",
+        "an allocation failure inside the Rust-owned writer is injected (fault-injecting global allocator, one trace per process); on this tree it ends in Rust's out-of-memory abort, which is counted and excluded",
         "the C++ WriteFromString owner is exercised by the C++ driver phase when present",
     ]
     write_evidence(PROP, tier, seed, "fault_enumeration", cov, assumptions, wall, len(violations))
